@@ -9,7 +9,15 @@ PROP = dict(
         "charts: disc_decider_sound (isDisc on every real chart) + partition; bseq: boundarySeq model; "
         "system: floaterRow/floaterSystem (floater_row_convex_comb) in exact arithmetic; param/atlas: uvValid_sound "
         "(+ weighted-mean residual, validation); circle: runSums/arcParams (arc_params_increasing; libm, near); pack: buildQT/joined/toBounds (quadtree_cells_disjoint_in_unit, "
-        "to_bounds_affine) in exact arithmetic; mapfn: bary2/atBary3 (mapfn_barycentric_roundtrip)"
+        "to_bounds_affine) in exact arithmetic; mapfn: bary2/atBary3 (mapfn_barycentric_roundtrip); "
+        "hist: floater_history_keeps_boundary (every solve of a history over ONE boundary map leaves that map unchanged and "
+        "extends it by this solve's solution) + floater_row_convex_comb for THIS solve's weights (residual <= 1e-6, "
+        "validation of the iterative solver) + uvValid_sound; near T: findUV = the faithful model of newTri2dLookup/Find "
+        "(halving tree, containment scan, nearestGo) must EQUAL the real tri2dLookup.Find; near M/N: "
+        "mapfn_outside_returns_nearest + mapfn_nearest_search_eq_scan + mapfn_lookup_tree_sound (the pruned search over the "
+        "tree newTri2dLookup builds returns a triangle at the smallest distance over ALL triangles, for every sound bound; "
+        "instance of Prune.Forest.search_eq_foldl) + mapfn_nearest_point_closest (nearest point of the SOLID triangle): the driver recomputes the smallest "
+        "distance by a linear scan in Q; atlas cover: atlas_covers_every_triangle_once / atlas_recursion_partitions (+ charts_partition)"
     ),
     rule=(
         "generated manifolds: icospheres, tori, boxes, grid boxes, marching-cubes genus-1/2 frames and random blobs, "
@@ -18,7 +26,15 @@ PROP = dict(
         "MeshToPlaneGraphs[Limited], SplitPlaneGraph, boundarySequence, Floater97 / StretchMinimizingParameterization over "
         "Circle / PNorm / lattice-polygon boundaries with uniform / chord / shape-preserving / dyadic weights, "
         "BuildAutomaticUVMap, PackMeshUVMaps on dyadic charts, MapFn at dyadic barycentric points incl. shared edges); "
-        "distinct = distinct operation lines"
+        "histories of 2..4 solves (Floater97 / StretchMinimizingParameterization; uniform / inverse chord / shape-preserving / "
+        "random dyadic weights) that share ONE boundary CoordMap, with the boundary map recorded after every solve; UV layouts of "
+        "up to four separate blocks of right isosceles triangles with power-of-two legs (holes, ragged borders) queried at "
+        "points in 1/64 outside every triangle (gaps between blocks, next to corners and edges, outside the box, far away) "
+        "through the real MapFn and through tri2dLookup over random / GroupBounders orders; atlas inputs with thin spikes, "
+        "needles, cones and spindles (stretch ~ height/(2 radius) from 3 to 200, area share often < 1/512) as separate "
+        "components or grown out of a face of a sheet / patch / icosphere / box, and long ringed cones (deep recursion), with "
+        "the covered triangle set of the returned MeshUVMap compared with the mesh; MapFn of real atlases at points off the "
+        "chart borders, outside the unit square and far away; distinct = distinct operation lines"
     ),
     trusted=[
         "regenerated, not hand-written: lean/M3d/Gen/Kernels.lean (Go->Lean translator harness/hlib/go2lean, run on the current "
@@ -33,13 +49,28 @@ PROP = dict(
         "isDisc is run on every real chart",
         "the iterative solver (BiCGSTAB) and stretch minimisation are numerical: the weighted-mean equation is checked "
         "on the solver output with tolerance 1e-6 (validation); CircleBoundary/PNormBoundary use libm",
-        "MapFn's nearest-point fallback (query outside every UV triangle) and GroupBounders are not modelled: queries "
-        "are generated inside triangles",
+        "regenerated too: Coord.SquaredDist, Coord.Dot, Rect.Contains and the clamp c.Min(max).Max(min) (building blocks of "
+        "Triangle.genericSDF / Rect.genericSDF, which write through pointers and are outside the translated subset) are tied to "
+        "dist2 / dot2 / rectContains / clamp1 of the nearest-triangle model",
+        "modelled, not verified: Go *CoordMap pointers as indices into an explicit heap of association lists (the frame "
+        "theorem floater_history_keeps_boundary is about that heap); model2d.GroupBounders is NOT modelled: the nearest "
+        "theorems hold for every order of the triangles (every tree newTri2dLookup can build), the faithful comparison "
+        "(near T) feeds the order GroupBounders produced or a random one through the hook VerifNewTri2dLookup",
+        "Rect.SDF / genericSDF use sqrt: the "
+        "model compares squared distances (s -> s|s| is strictly increasing), exact on the dyadic layouts of near T / near M; "
+        "near N (real atlases, float UVs) allows 1e-9 relative slack on squared distances: validation",
     ],
     assumptions=[
         "input meshes are manifold (possibly with boundary), without repeated or degenerate faces; NaN/Inf excluded",
         "Floater weights are non-negative and sum to 1 per interior vertex (Go panics otherwise, up to 1e-4)",
         "charts passed to PackMeshUVMaps have positive 3-D area and a non-degenerate UV bounding box",
+        "the texture resolution passed to BuildAutomaticUVMap is large enough for the number of charts: every quad-tree "
+        "cell is wider than its two borders (otherwise ToBounds panics or flattens the chart - behaviour the pack kind "
+        "compares exactly); spiked / long-cone inputs are run with resolution >= 256",
+        "Floater97 / StretchMinimizingParameterization called directly: the exact solution's UV triangles are larger than the "
+        "resolution of the iterative solver (default MSE tolerance 1e-16): discs with a scale ratio >= 1e3 inside one chart or "
+        "many rings between boundary and interior are only fed to BuildAutomaticUVMap, which (since fix 6c979e5) detects "
+        "flipped / zero-area UV triangles and splits such discs",
     ],
     level_text=(
         "Theorems (Lean 4, every policy/oracle, every ordered field): chart growth never loses or duplicates a triangle "
@@ -49,8 +80,13 @@ PROP = dict(
         "(weighted mean) of the neighbours, lies in their hull, and the maximum is attained on the boundary; quad-tree "
         "cells are interior-disjoint and inside the root, borders shrink them inward, ToBounds is an affine bijection "
         "onto the cell; Barycentric/AtBarycentric round-trip; soundness of the UV validity checker and of the disc "
-        "decider. Tie: the real code is run on generated manifolds and compared with the models (exact for growth, "
-        "system assembly, packing, MapFn on dyadic data), and the proved deciders are run on every real chart and "
+        "decider; a history of solves over one boundary map never changes that map and every result extends it; the "
+        "atlas recursion (split or append, any stretch oracle) covers every triangle exactly once; MapFn's pruned "
+        "nearest-triangle search equals the linear scan for every sound bound, the Rect.SDF bound of the tree "
+        "newTri2dLookup builds is sound for every query, so a query outside every UV triangle gets a triangle at the "
+        "smallest distance and its closest boundary point. Tie: the real code is run on generated manifolds and compared with the models (exact for growth, "
+        "system assembly, packing, MapFn on dyadic data inside and outside the triangles, the tri2dLookup search), "
+        "histories of solves and atlas covers are compared with what the theorems demand, and the proved deciders are run on every real chart and "
         "every real UV layout in exact arithmetic."
     ),
     level_note=(
